@@ -24,6 +24,9 @@ def _names(e):
 
 
 def run(ctx):
+    from . import simrules
+    simrules.run_records_rule(ctx, 'C18.k', floor=10)
+    ctx.decided.append('C18.k samplers assemble run() results from all records of the classical data store, not from the latest-record view')
     repo = ctx.repo
     _flatten_order(ctx, repo)
     _labelled_columns(ctx, repo)
